@@ -1,0 +1,8 @@
+//go:build !verif
+// +build !verif
+
+package cache
+
+import "os"
+
+func verifStep(f *os.File, step string) {}
